@@ -190,6 +190,8 @@ enum Act {
     Shutdown,
     DropHandles,
     Submit,
+    /// two commands back to back: the second one waits in the queue behind the disable
+    DisableThenShutdown,
 }
 
 struct Pending {
@@ -363,6 +365,7 @@ async fn run_script(seed: u64, n: u64) -> (Evidence, Vec<(String, String)>, Vec<
                         (_, 0) => Act::Disable,
                         (_, 1 | 2) => Act::Submit,
                         (_, 3) => Act::Enable,
+                        (ClientState::Connected, 4) => Act::DisableThenShutdown,
                         _ => Act::Nothing,
                     }
                 };
@@ -405,6 +408,15 @@ async fn run_script(seed: u64, n: u64) -> (Evidence, Vec<(String, String)>, Vec<
                         if let Some(h) = handles.first() {
                             let _ = h.shutdown().await;
                             shutdown_sent = Some((Instant::now(), 0, "shutdown"));
+                        }
+                    }
+                    Act::DisableThenShutdown => {
+                        if let Some(h) = handles.first() {
+                            let _ = h.disable().await;
+                            settings_sent.push(false);
+                            let _ = h.shutdown().await;
+                            shutdown_sent = Some((Instant::now(), 0, "shutdown_queued_behind_disable"));
+                            expect_next = None;
                         }
                     }
                     Act::DropHandles => {
@@ -521,7 +533,7 @@ async fn run_script(seed: u64, n: u64) -> (Evidence, Vec<(String, String)>, Vec<
                             }
                         }
                     }
-                    Act::Nothing => {}
+                    Act::Nothing | Act::DisableThenShutdown => {}
                 }
             }
         }
@@ -547,17 +559,30 @@ async fn run_script(seed: u64, n: u64) -> (Evidence, Vec<(String, String)>, Vec<
         if let Ok(Some((s, _, _))) = tokio::time::timeout(Duration::from_millis(50), grx.recv()).await {
             problems.push((format!("notification_after_shutdown:{}", state_name(&s)), "a state was reported after Shutdown".into()));
         }
-        // handles report shutdown
-        if let Some(h) = handles.first() {
-            if h.enable().await.is_ok() {
-                problems.push(("handle_usable_after_shutdown".into(), "enable() succeeded after the Shutdown state".into()));
+        // handles report shutdown. (If the task is in fact still alive it may park at the next
+        // notification: keep acknowledging in the background and bound every call.)
+        let drain = tokio::spawn(async move {
+            while let Some((_, _, ack)) = grx.recv().await {
+                let _ = ack.send(());
             }
-            let r = h.read_holding_registers(RequestParam::new(UnitId::new(1), Duration::from_millis(50)), AddressRange::try_from(0, 1).unwrap()).await;
-            if r != Err(RequestError::Shutdown) {
-                problems.push(("request_after_shutdown_not_shutdown_error".into(), format!("a request after Shutdown completed with {r:?}")));
+        });
+        if let Some(h) = handles.first() {
+            match tokio::time::timeout(Duration::from_secs(5), h.enable()).await {
+                Ok(Ok(())) => problems.push(("handle_usable_after_shutdown".into(), "enable() succeeded after the Shutdown state".into())),
+                Ok(Err(_)) => {}
+                Err(_) => problems.push(("handle_call_hangs_after_shutdown".into(), "enable() did not return within 5 s after the Shutdown state".into())),
+            }
+            match tokio::time::timeout(Duration::from_secs(5), h.read_holding_registers(RequestParam::new(UnitId::new(1), Duration::from_millis(50)), AddressRange::try_from(0, 1).unwrap())).await {
+                Ok(r) => {
+                    if r != Err(RequestError::Shutdown) {
+                        problems.push(("request_after_shutdown_not_shutdown_error".into(), format!("a request after Shutdown completed with {r:?}")));
+                    }
+                }
+                Err(_) => problems.push(("request_after_shutdown_never_completes".into(), "a request submitted after shutdown was requested did not complete within 5 s".into())),
             }
             ev.count("post_shutdown_handle_checks", 1);
         }
+        drain.abort();
     } else {
         jh.abort();
     }
